@@ -53,32 +53,100 @@ Proof.
 Qed.
 
 (* ------------------------------------------------------------------ what revision writes *)
-Lemma revision_wrote : forall P m f env file p,
-  cmd_revision P m f env = Ok (RevWrote file p) ->
-  exists plans, load_migrations P = Ok plans
-    /\ p_version p = next_version plans
-    /\ p_comment p = Some m
-    /\ file = migration_filename (p_version p) (Some m) (cf_migration_format (pj_config P)) (cf_pattern (pj_config P)).
+Lemma fold_max_in_or_acc : forall l a, fold_left N.max l a = a \/ In (fold_left N.max l a) l.
 Proof.
-  intros P m f env file p. unfold cmd_revision.
+  induction l as [|x l IH]; intros a; [left; reflexivity|].
+  cbn [fold_left]. destruct (IH (N.max a x)) as [H|H].
+  - rewrite H. destruct (N.max_spec a x) as [[_ ->]|[_ ->]]; [right; left; reflexivity|left; reflexivity].
+  - right. right. exact H.
+Qed.
+
+Lemma in_insert_le : forall A (le : A -> A -> bool) x y l, In x l -> In x (insert_le le y l).
+Proof.
+  intros A le x y. induction l as [|z r IH]; intros H; [contradiction|].
+  cbn [insert_le]. destruct (le y z); [right; exact H|].
+  destruct H as [->|H]; [left; reflexivity|right; apply IH; exact H].
+Qed.
+Lemma in_insert_le_self : forall A (le : A -> A -> bool) y l, In y (insert_le le y l).
+Proof.
+  intros A le y. induction l as [|z r IH]; [left; reflexivity|].
+  cbn [insert_le]. destruct (le y z); [left; reflexivity|right; exact IH].
+Qed.
+Lemma in_sort_plans : forall q l, In q l -> In q (sort_plans l).
+Proof.
+  unfold sort_plans, sort_le. intros q. induction l as [|x r IH]; intros H; [contradiction|].
+  cbn [fold_right]. destruct H as [->|H]; [apply in_insert_le_self|apply in_insert_le, IH; exact H].
+Qed.
+
+(* the two ways a revision gets as far as naming its file: it writes it, or refuses because it exists *)
+Lemma revision_named : forall P m f env o,
+  cmd_revision P m f env = Ok o ->
+  (exists file p, o = RevWrote file p) \/ o = RevRefusedExists ->
+  exists plans name,
+    load_migrations P = Ok plans
+    /\ existsb (fun q => N.leb (next_version plans) (p_version q)) plans = false
+    /\ name = migration_filename (next_version plans) (Some m) (cf_migration_format (pj_config P)) (cf_pattern (pj_config P))
+    /\ (o = RevRefusedExists -> In name (file_names P))
+    /\ (forall file p, o = RevWrote file p ->
+          file = name /\ p_version p = next_version plans /\ p_comment p = Some m /\ ~ In name (file_names P)).
+Proof.
+  intros P m f env o. unfold cmd_revision.
   destruct (load_models P) as [models|e]; [|intros H; discriminate H].
   destruct (load_migrations P) as [plans|e]; [|intros H; discriminate H].
   unfold plan_next.
   destruct (replay plans) as [baseline|e]; [|intros H; discriminate H].
   destruct (diff_actions baseline models) as [acts|e]; [|intros H; discriminate H].
-  cbn [p_actions p_version].
-  destruct (is_nil acts); [intros H; discriminate H|].
-  destruct (refuses acts); [intros H; discriminate H|].
+  cbn [p_actions p_version p_comment].
+  assert (Hleaf : forall acts' : list action,
+    (if mem_str (migration_filename (next_version plans) (Some m) (cf_migration_format (pj_config P)) (cf_pattern (pj_config P))) (file_names P)
+     then Ok RevRefusedExists
+     else Ok (RevWrote (migration_filename (next_version plans) (Some m) (cf_migration_format (pj_config P)) (cf_pattern (pj_config P)))
+                (mkPlan (re_uuid env) (Some m) (Some (re_now env)) (next_version plans) acts'))) = @Ok rev_out cli_error o ->
+    existsb (fun q => N.leb (next_version plans) (p_version q)) plans = false ->
+    exists plans0 name,
+      @Ok (list plan) cli_error plans = Ok plans0
+      /\ existsb (fun q => N.leb (next_version plans0) (p_version q)) plans0 = false
+      /\ name = migration_filename (next_version plans0) (Some m) (cf_migration_format (pj_config P)) (cf_pattern (pj_config P))
+      /\ (o = RevRefusedExists -> In name (file_names P))
+      /\ (forall file p, o = RevWrote file p ->
+            file = name /\ p_version p = next_version plans0 /\ p_comment p = Some m /\ ~ In name (file_names P))).
+  { intros acts' H Hv. exists plans. eexists. split; [reflexivity|]. split; [exact Hv|]. split; [reflexivity|].
+    destruct (mem_str _ (file_names P)) eqn:Hm; inversion H; subst o.
+    - split; [intros _|intros file p Hc; discriminate Hc].
+      unfold mem_str in Hm. apply existsb_exists in Hm. destruct Hm as [x [Hin He]]. apply String.eqb_eq in He. subst x. exact Hin.
+    - split; [intros Hc; discriminate Hc|]. intros file p Hc. inversion Hc; subst. cbn [p_version p_comment].
+      repeat split. intros Hin. unfold mem_str in Hm.
+      assert (Ht : existsb (String.eqb (migration_filename (next_version plans) (Some m) (cf_migration_format (pj_config P)) (cf_pattern (pj_config P)))) (file_names P) = true).
+      { apply existsb_exists. eexists. split; [exact Hin|apply String.eqb_refl]. }
+      rewrite Ht in Hm. discriminate Hm. }
+  destruct (is_nil acts); [intros H [[x [y Hc]]|Hc]; inversion H; subst o; discriminate Hc|].
+  destruct (existsb (fun q => N.leb (next_version plans) (p_version q)) plans) eqn:Hv;
+    [intros H [[x [y Hc]]|Hc]; inversion H; subst o; discriminate Hc|].
+  destruct (refuses acts); [intros H [[x [y Hc]]|Hc]; inversion H; subst o; discriminate Hc|].
   set (fv := parse_fill_with_args f). set (a0 := map (apply_fill fv) acts).
   destruct (collect_fills a0 baseline) as [|mi mr].
   - destruct (find_missing_enum_fill_with (mkPlan "" None None 0 a0) baseline) as [|ei er].
-    + intros H. inversion H; subst. exists plans. repeat split; reflexivity.
-    + destruct (re_tty env); [|intros H; discriminate H].
-      intros H. inversion H; subst. exists plans. repeat split; reflexivity.
-  - destruct (re_tty env); [|intros H; discriminate H].
+    + intros H _. exact (Hleaf _ H Hv).
+    + destruct (re_tty env); [|intros H [[x [y Hc]]|Hc]; inversion H; subst o; discriminate Hc].
+      intros H _. exact (Hleaf _ H Hv).
+  - destruct (re_tty env); [|intros H [[x [y Hc]]|Hc]; inversion H; subst o; discriminate Hc].
     set (a1 := map (apply_fill (fv ++ mi :: mr)) a0).
-    destruct (find_missing_enum_fill_with (mkPlan "" None None 0 a1) baseline) as [|ei er];
-      intros H; inversion H; subst; exists plans; repeat split; reflexivity.
+    destruct (find_missing_enum_fill_with (mkPlan "" None None 0 a1) baseline) as [|ei er]; intros H _; exact (Hleaf _ H Hv).
+Qed.
+
+Lemma revision_wrote : forall P m f env file p,
+  cmd_revision P m f env = Ok (RevWrote file p) ->
+  exists plans, load_migrations P = Ok plans
+    /\ existsb (fun q => N.leb (next_version plans) (p_version q)) plans = false
+    /\ p_version p = next_version plans
+    /\ p_comment p = Some m
+    /\ file = migration_filename (p_version p) (Some m) (cf_migration_format (pj_config P)) (cf_pattern (pj_config P))
+    /\ ~ In file (file_names P).
+Proof.
+  intros P m f env file p H.
+  destruct (revision_named _ _ _ _ _ H (or_introl (ex_intro _ file (ex_intro _ p eq_refl)))) as [plans [name [Hl [Hv [Hn [_ Hw]]]]]].
+  destruct (Hw file p eq_refl) as [Hf [Hpv [Hc Hnot]]].
+  exists plans. subst name. rewrite Hpv. subst file. auto 10.
 Qed.
 
 Lemma write_file_fresh : forall name p fs,
@@ -91,105 +159,119 @@ Proof.
   - cbn [app]. rewrite IH; [reflexivity|]. intros Hin. apply Hn. right. exact Hin.
 Qed.
 
-Lemma write_file_keeps_others : forall name p fs n q,
-  In (n, q) fs -> n <> name -> In (n, q) (write_file name p fs).
+(* all stored versions are below the new one *)
+Lemma new_version_above : forall P plans,
+  load_migrations P = Ok plans ->
+  existsb (fun q => N.leb (next_version plans) (p_version q)) plans = false ->
+  (forall v, In v (versions P) -> v < next_version plans) /\ next_version plans = max_version P + 1.
 Proof.
-  induction fs as [|[n0 q0] r IH]; intros n q Hin Hne; [contradiction|].
-  cbn [write_file]. destruct (String.eqb n0 name) eqn:He.
-  - apply String.eqb_eq in He. destruct Hin as [Heq|Hin].
-    + inversion Heq; subst. contradiction.
-    + right. exact Hin.
-  - destruct Hin as [Heq|Hin]; [left; exact Heq|right; apply IH; assumption].
+  intros P plans Hl Hv.
+  pose proof (next_version_loaded _ _ Hl) as Hnv.
+  assert (Hall : forall v, In v (versions P) -> v < next_version plans).
+  { intros v Hin. unfold versions in Hin. apply in_map_iff in Hin. destruct Hin as [[n q] [<- Hin]]. cbn [snd].
+    unfold load_migrations in Hl. destruct (validate_files (pj_migrations P)); [|discriminate Hl]. inversion Hl; subst plans.
+    assert (Hq : In q (sort_plans (map snd (pj_migrations P)))).
+    { apply in_sort_plans. apply in_map_iff. exists (n, q). split; [reflexivity|exact Hin]. }
+    destruct (N.ltb (p_version q) (next_version (sort_plans (map snd (pj_migrations P))))) eqn:E; [apply N.ltb_lt; exact E|].
+    exfalso. apply N.ltb_ge in E.
+    assert (Ht : existsb (fun q0 => N.leb (next_version (sort_plans (map snd (pj_migrations P)))) (p_version q0))
+                   (sort_plans (map snd (pj_migrations P))) = true).
+    { apply existsb_exists. exists q. split; [exact Hq|apply N.leb_le; exact E]. }
+    rewrite Ht in Hv. discriminate Hv. }
+  split; [exact Hall|].
+  rewrite Hnv in *. unfold max_version in *.
+  destruct (fold_max_in_or_acc (versions P) 0) as [H0|Hin].
+  - rewrite H0. unfold u32_max. lia.
+  - specialize (Hall _ Hin). unfold u32_max in *. lia.
 Qed.
 
+(* since fix fcb5089, for EVERY filename pattern and every stored history: what revision writes is a new file
+   with a version greater than all stored ones, appended to an otherwise untouched history *)
 Theorem revision_append_only : forall P m f env file p,
   cmd_revision P m f env = Ok (RevWrote file p) ->
-  p_version p = N.min u32_max (max_version P + 1)
-  /\ (max_version P < u32_max ->
-        p_version p = max_version P + 1 /\ forall v, In v (versions P) -> v < p_version p)
-  /\ (~ In file (file_names P) ->
-        pj_migrations (step_revision P m f env) = pj_migrations P ++ [(file, p)])
-  /\ (forall n q, In (n, q) (pj_migrations P) -> n <> file ->
-        In (n, q) (pj_migrations (step_revision P m f env))).
+  p_version p = max_version P + 1
+  /\ (forall v, In v (versions P) -> v < p_version p)
+  /\ ~ In file (file_names P)
+  /\ pj_migrations (step_revision P m f env) = pj_migrations P ++ [(file, p)].
 Proof.
   intros P m f env file p H.
-  destruct (revision_wrote _ _ _ _ _ _ H) as [plans [Hl [Hv _]]].
-  rewrite (next_version_loaded _ _ Hl) in Hv.
-  split; [exact Hv|]. split.
-  - intros Hlt. assert (Hpv : p_version p = max_version P + 1) by (rewrite Hv; lia).
-    split; [exact Hpv|]. intros v Hin. rewrite Hpv.
-    pose proof (fold_max_ge_in (versions P) 0 v Hin) as Hle. unfold max_version. lia.
-  - unfold step_revision. rewrite H. cbn [project_after pj_migrations]. split.
-    + intros Hn. apply write_file_fresh. exact Hn.
-    + intros n q Hin Hne. apply write_file_keeps_others; assumption.
+  destruct (revision_wrote _ _ _ _ _ _ H) as [plans [Hl [Hv [Hpv [_ [_ Hnot]]]]]].
+  destruct (new_version_above _ _ Hl Hv) as [Hall Hnv].
+  rewrite Hpv. split; [exact Hnv|]. split; [exact Hall|]. split; [exact Hnot|].
+  unfold step_revision. rewrite H. cbn [project_after pj_migrations]. apply write_file_fresh. exact Hnot.
 Qed.
 
-(* ------------------------------------------------------------------ default pattern: never an overwrite *)
+(* every other outcome leaves the project as it is *)
+Theorem revision_never_overwrites : forall P m f env,
+  (forall n q, In (n, q) (pj_migrations P) -> In (n, q) (pj_migrations (step_revision P m f env)))
+  /\ (forall o, cmd_revision P m f env = Ok o -> (forall file p, o <> RevWrote file p) -> step_revision P m f env = P)
+  /\ (forall e, cmd_revision P m f env = Err e -> step_revision P m f env = P).
+Proof.
+  intros P m f env. unfold step_revision.
+  destruct (cmd_revision P m f env) as [o|e] eqn:H.
+  - split.
+    + destruct o; cbn [project_after]; try (intros n q Hin; exact Hin).
+      intros n q Hin. cbn [pj_migrations].
+      destruct (revision_append_only _ _ _ _ _ _ H) as [_ [_ [_ Happ]]].
+      unfold step_revision in Happ. rewrite H in Happ. cbn [project_after pj_migrations] in Happ.
+      rewrite Happ. apply in_or_app. left. exact Hin.
+    + split; [|intros e He; discriminate He].
+      intros o' Ho Hne. inversion Ho; subst o'. destruct o; try reflexivity. exfalso. exact (Hne _ _ eq_refl).
+  - split; [intros n q Hin; exact Hin|]. split; [intros o Ho; discriminate Ho|reflexivity].
+Qed.
+
+(* ------------------------------------------------------------------ default pattern: the file-exists refusal never fires *)
 (* every stored file carries the name the tool gives to its (version, comment) under the default pattern *)
 Definition tool_named (P : project) : Prop :=
   forall n q, In (n, q) (pj_migrations P) ->
     exists fmt, n = migration_filename (p_version q) (p_comment q) fmt default_pattern.
 
-Theorem revision_never_overwrites : forall P m f env file p,
+Theorem default_pattern_never_refused : forall P m f env,
   cf_pattern (pj_config P) = default_pattern ->
   tool_named P ->
-  max_version P < u32_max ->
-  cmd_revision P m f env = Ok (RevWrote file p) ->
-  ~ In file (file_names P)
-  /\ pj_migrations (step_revision P m f env) = pj_migrations P ++ [(file, p)].
+  cmd_revision P m f env <> Ok RevRefusedExists.
 Proof.
-  intros P m f env file p Hpat Hnamed Hlt H.
-  destruct (revision_append_only _ _ _ _ _ _ H) as [_ [Hfresh [Happ _]]].
-  destruct (Hfresh Hlt) as [_ Hgt].
-  destruct (revision_wrote _ _ _ _ _ _ H) as [plans [_ [_ [_ Hname]]]].
-  assert (Hnot : ~ In file (file_names P)).
-  { unfold file_names. intros Hin. apply in_map_iff in Hin. destruct Hin as [[n q] [Hn Hin]]. cbn [fst] in Hn. subst n.
-    destruct (Hnamed _ _ Hin) as [fmt Hq].
-    assert (Hvq : In (p_version q) (versions P)).
-    { unfold versions. apply in_map_iff. exists (file, q). split; [reflexivity|exact Hin]. }
-    specialize (Hgt _ Hvq).
-    rewrite Hpat in Hname. rewrite Hname in Hq.
-    apply filename_fresh in Hq; [exact Hq|]. lia. }
-  split; [exact Hnot|]. apply Happ. exact Hnot.
+  intros P m f env Hpat Hnamed H.
+  destruct (revision_named _ _ _ _ _ H (or_intror eq_refl)) as [plans [name [Hl [Hv [Hn [Hex _]]]]]].
+  specialize (Hex eq_refl).
+  destruct (new_version_above _ _ Hl Hv) as [Hall _].
+  unfold file_names in Hex. apply in_map_iff in Hex. destruct Hex as [[n q] [Hnq Hin]]. cbn [fst] in Hnq. subst n.
+  destruct (Hnamed _ _ Hin) as [fmt Hq].
+  assert (Hvq : In (p_version q) (versions P)).
+  { unfold versions. apply in_map_iff. exists (name, q). split; [reflexivity|exact Hin]. }
+  specialize (Hall _ Hvq).
+  rewrite Hpat in Hn. rewrite Hn in Hq.
+  apply filename_fresh in Hq; [exact Hq|]. lia.
 Qed.
 
-(* ------------------------------------------------------------------ refutations (closed by computation) *)
+(* ------------------------------------------------------------------ the former overwrite witnesses are refused now *)
 Definition cfg_pattern (pat : string) : config := mkConfig "models" "migrations" FJson FJson pat "src/models" "".
 Definition kcol (n : string) : column_def := mkCol n (TSimple Integer) false None None (Some (PKBool true)) None None None.
 Definition ncol (n : string) : column_def := mkCol n (TSimple Text) true None None None None None None.
 Definition env0 : rev_env := mkEnv false "uuid" "now".
 
-(* a pattern without a version placeholder: the same comment twice gives the same file *)
+(* a pattern without a version placeholder and the same comment twice *)
 Definition P_same_name : project :=
   mkProject (cfg_pattern "%m") [("user.json", mkTable "user" None [kcol "id"; ncol "email"] [])]
             [("same.vespertide.json", mkPlan "id-1" (Some "same") None 1 [CreateTable "user" [kcol "id"] []])].
 
-Theorem filename_pattern_refuted :
-  exists P m f env file p,
-    cmd_revision P m f env = Ok (RevWrote file p)
-    /\ In file (file_names P)
-    /\ p_version p = 2
-    /\ pj_migrations (step_revision P m f env) = [(file, p)].     (* the first migration is gone *)
-Proof.
-  exists P_same_name, "same", [], env0. do 2 eexists.
-  split; [vm_compute; reflexivity|]. split; [left; reflexivity|]. split; vm_compute; reflexivity.
-Qed.
+Theorem filename_pattern_refused :
+  cmd_revision P_same_name "same" [] env0 = Ok RevRefusedExists
+  /\ step_revision P_same_name "same" [] env0 = P_same_name
+  /\ exists p, cmd_revision P_same_name "other" [] env0 = Ok (RevWrote "other.vespertide.json" p) /\ p_version p = 2.
+Proof. split; [vm_compute; reflexivity|]. split; [vm_compute; reflexivity|]. eexists. split; vm_compute; reflexivity. Qed.
 
-(* the u32 corner: at version 4294967295 saturating_add returns the same version again *)
+(* the u32 corner: at version 4294967295 there is no greater version to hand out *)
 Definition P_saturated : project :=
   mkProject default_config [("user.json", mkTable "user" None [kcol "id"; ncol "email"] [])]
             [("4294967295_big.vespertide.json", mkPlan "id-1" (Some "big") None 4294967295 [CreateTable "user" [kcol "id"] []])].
 
-Theorem revision_saturation_refuted :
-  exists P m f env file p,
-    cmd_revision P m f env = Ok (RevWrote file p)
-    /\ max_version P = u32_max
-    /\ In (p_version p) (versions P)            (* the "new" version is an old one *)
-    /\ In file (file_names P).                  (* and with the same comment the old file is overwritten *)
-Proof.
-  exists P_saturated, "big", [], env0. do 2 eexists.
-  split; [vm_compute; reflexivity|]. split; [reflexivity|]. split; left; reflexivity.
-Qed.
+Theorem revision_saturation_refused :
+  max_version P_saturated = u32_max
+  /\ cmd_revision P_saturated "big" [] env0 = Ok RevRefusedVersion
+  /\ cmd_revision P_saturated "other" [] env0 = Ok RevRefusedVersion
+  /\ step_revision P_saturated "big" [] env0 = P_saturated.
+Proof. repeat split; vm_compute; reflexivity. Qed.
 
 (* ------------------------------------------------------------------ what revision writes can be loaded again *)
 (* an action validate_migration_plan rejects with MissingFillWith *)
@@ -386,6 +468,7 @@ Proof.
   destruct (diff_actions baseline models) as [acts|e]; [|intros H; discriminate H].
   cbn [p_actions p_version].
   destruct (is_nil acts); [intros H; discriminate H|].
+  destruct (existsb (fun q => N.leb (next_version plans) (p_version q)) plans); [intros H; discriminate H|].
   destruct (refuses acts); [intros H; discriminate H|].
   set (fv := parse_fill_with_args f). set (a0 := map (apply_fill fv) acts).
   assert (Hfinal : forall a1 a2, (forall x, In x a1 -> ok_or_defaulted baseline x) ->
@@ -396,9 +479,11 @@ Proof.
   destruct (collect_fills a0 baseline) as [|mi mr] eqn:Hmiss.
   - assert (H1 : forall x, In x a0 -> ok_or_defaulted baseline x) by (intros x Hx; exact (no_prompt_ok a0 baseline x Hmiss Hx)).
     destruct (find_missing_enum_fill_with (mkPlan "" None None 0 a0) baseline) as [|ei er].
-    + intros H a Hin. inversion H; subst. cbn [p_actions] in Hin.
+    + match goal with |- context [mem_str ?n ?l] => destruct (mem_str n l) end; [intros H; discriminate H|].
+      intros H a Hin. inversion H; subst. cbn [p_actions] in Hin.
       exact (Hfinal a0 a0 H1 (fun x Hx => or_introl Hx) a Hin).
     + destruct (re_tty env); [|intros H; discriminate H].
+      match goal with |- context [mem_str ?n ?l] => destruct (mem_str n l) end; [intros H; discriminate H|].
       intros H a Hin. inversion H; subst. cbn [p_actions] in Hin.
       exact (Hfinal a0 _ H1 (fun x Hx => enum_fills_keep _ _ _ x Hx) a Hin).
   - destruct (re_tty env); [|intros H; discriminate H].
@@ -406,9 +491,11 @@ Proof.
     assert (H1 : forall x, In x a1 -> ok_or_defaulted baseline x).
     { intros x Hx. unfold a1 in Hx. rewrite <- Hmiss in Hx. exact (prompted_ok a0 baseline fv x Hx). }
     destruct (find_missing_enum_fill_with (mkPlan "" None None 0 a1) baseline) as [|ei er].
-    + intros H a Hin. inversion H; subst. cbn [p_actions] in Hin.
+    + match goal with |- context [mem_str ?n ?l] => destruct (mem_str n l) end; [intros H; discriminate H|].
+      intros H a Hin. inversion H; subst. cbn [p_actions] in Hin.
       exact (Hfinal a1 a1 H1 (fun x Hx => or_introl Hx) a Hin).
-    + intros H a Hin. inversion H; subst. cbn [p_actions] in Hin.
+    + match goal with |- context [mem_str ?n ?l] => destruct (mem_str n l) end; [intros H; discriminate H|].
+      intros H a Hin. inversion H; subst. cbn [p_actions] in Hin.
       exact (Hfinal a1 _ H1 (fun x Hx => enum_fills_keep _ _ _ x Hx) a Hin).
 Qed.
 
